@@ -23,6 +23,8 @@ func C20_dial_cancellation() {
 		timeout = 40
 	}
 	silent := vBool("silentpeer")
+	refuse := vBool("refusepeer") // the peer answers 400: a handshake failure that is not a timeout
+	vAssume(!(silent && refuse))
 	cancelAt := vInt("cancelat") // cancel right before connection operation #cancelAt (-1: never)
 	vAssume(vAnd(cancelAt >= -2, cancelAt <= 5)) // -2: already cancelled before connecting
 	if ctxKind != 1 {
@@ -33,6 +35,10 @@ func C20_dial_cancellation() {
 	// cancellation tied to a later operation never fires)
 	// — #1 never *completes*, so a cancellation at its end does not fire either)
 	late := vBool("cancellate")
+	// natively only: keep the watcher inside its poisoning call while the handshake finishes (the
+	// engine explores that interleaving anyway; the flag makes it deterministic on replay)
+	hold := vBool("holdwatcher")
+	vAssume(!hold || (!silent && ctxKind == 1 && cancelAt >= 0 && !late))
 	bounded := timeout > 0 || ctxKind >= 2 || cancelAt == -2 || cancelAt == 0 || (cancelAt == 1 && !late)
 	if silent && !bounded {
 		vAssume(false)
@@ -52,7 +58,7 @@ func C20_dial_cancellation() {
 			}
 		}
 	}
-	conn := &vDConn{cancelAt: cancelAt, cancelLate: late, ctx: root, silent: silent}
+	conn := &vDConn{cancelAt: cancelAt, cancelLate: late, ctx: root, silent: silent, refuse: refuse, hold: hold}
 	vTheConn = conn
 	if cancelAt == -2 && root != nil {
 		root.cancel(context.Canceled)
@@ -86,7 +92,14 @@ func C20_dial_cancellation() {
 		// (d) the watcher goroutine has finished by the time Dial returns
 		vAssert(vThreads() == 1, "dial.watcher_finished_at_return")
 	} else {
+		// natively a still-running watcher is visible only through what it does: a connection
+		// operation that completes after Dial returned (the "holdwatcher" phase makes that
+		// deterministic when the watcher is inside its poisoning call)
 		time.Sleep(5 * time.Millisecond)
+		conn.mu.Lock()
+		after := conn.opsAfter
+		conn.mu.Unlock()
+		vAssert(after == 0, "dial.watcher_finished_at_return")
 	}
 	conn.mu.Lock()
 	dl, closed, opsAfter := conn.dl, conn.closed, conn.opsAfter
@@ -98,7 +111,10 @@ func C20_dial_cancellation() {
 		vAssert(conn.ops == 0, "dial.cancelled_before_connecting_touches_nothing")
 		return
 	}
-	if !silent && cancelAt == -1 && (vSymbolic() || (ctxKind <= 1 && timeout == 0)) {
+	if refuse {
+		vAssert(err != nil, "dial.refused_handshake_is_error")
+	}
+	if !silent && !refuse && cancelAt == -1 && (vSymbolic() || (ctxKind <= 1 && timeout == 0)) {
 		// nothing ends the context and the peer answers at once (logical time does not advance
 		// while threads can run): the handshake must simply succeed
 		vAssert(err == nil, "dial.undisturbed_handshake_succeeds")
